@@ -4,6 +4,8 @@ import (
 	"go/ast"
 	"go/token"
 	"go/types"
+	"golang.org/x/tools/go/types/typeutil"
+	"strconv"
 	"strings"
 
 	"verif/checker/eng"
@@ -46,6 +48,8 @@ func inC19(f *eng.Fn) bool {
 func runC19(p *eng.Prog, r *eng.Report, tier string) {
 	c := &cx{p, r, tier}
 	nf := 0
+	nBelief := 0
+	defer func() { c.r.Floor("C19.1", "unreachable-panic beliefs checked against a library callee", nBelief, 1) }()
 	for _, f := range c.allFns() {
 		if !inC19(f) {
 			continue
@@ -70,6 +74,11 @@ func runC19(p *eng.Prog, r *eng.Report, tier string) {
 				ok = false
 			}
 			c.r.Check("C19.1", f, "explicit panic", "explicit panics only at documented programming-error sites, never in decoders or handlers ("+why+")", cl.Pos(), ok, "explicit panic in payload code")
+			if ok && strings.HasPrefix(why, "unreachable") {
+				if unreachableBelief(c, "C19.1", f, cl) {
+					nBelief++
+				}
+			}
 		}
 		for _, cl := range f.AllCalls() {
 			id := f.CalleeID(cl)
@@ -104,10 +113,16 @@ func runC19(p *eng.Prog, r *eng.Report, tier string) {
 	decoderSkipTypestate(c, "C19.9", inC19, 8)
 	// ---- C19.12 encoders emit field values verbatim
 	c19BlankLines(c, "C19.13")
+	nTg := tagsStructured(c, "C19.16", c19Pkgs)
+	c.r.Floor("C19.16", "xml struct tags in the payload packages", nTg, 100)
+	nNsD := namespacedDecodeTargets(c, "C19.21", inC19)
+	c.r.Note("C19.21: %d children decoded into namespaced targets examined", nNsD)
 	nEC := emptyContentAccepted(c, "C19.20", inC19)
 	c.r.Floor("C19.20", "character-data assertions in the payload decoders", nEC, 1)
 	nAM := attrMarshalersByValue(c, "C19.19", c19Pkgs)
 	c.r.Floor("C19.19", "attribute fields with their own marshaler", nAM, 3)
+	nRO := encodersReadOnly(c, "C19.23", inC19)
+	c.r.Floor("C19.23", "encoders examined for writes through the receiver", nRO, 100)
 	nOpt := optionalPointerFields(c, "C19.18", inC19)
 	c.r.Note("C19.18: %d uses through optional pointer fields examined", nOpt)
 	nGate := emissionGatedBySibling(c, "C19.17", inC19)
@@ -476,4 +491,63 @@ func c19OptionalPointers(c *cx, f *eng.Fn) {
 		okSafe := nilSafe(c, callee, 0)
 		c.r.Check("C19.7", f, "method "+callee.Short+" on optional "+x, "an optional (pointer) child of a decoded element is nil when absent: methods are called on it only under a nil test or if they are nil-safe", cl.Pos(), okd || okSafe, "peer input without the child element makes "+x+" nil and "+callee.Short+" dereferences its receiver")
 	}
+}
+
+// unreachableBelief: a panic accepted as "unreachable" states a belief about
+// the call whose error it guards: that call never fails. Where the callee is
+// a function of this library the belief is checked: every return of the
+// callee yields a definite nil error. (A callee that starts to return an
+// error for extreme values turns the "unreachable" panic into a reachable
+// one: encoding then panics instead of writing XML.)
+func unreachableBelief(c *cx, id string, f *eng.Fn, panicCall *ast.CallExpr) bool {
+	g := f.Graph()
+	pt, ok := g.Where(panicCall)
+	if !ok {
+		return false
+	}
+	guards := g.DominatingAtoms(pt, "!eq(*#*,nil)")
+	found := false
+	for _, call := range f.AllCalls() {
+		fo, isFn := typeutil.Callee(f.Info(), call).(*types.Func)
+		if !isFn {
+			continue
+		}
+		callee := c.p.FnOf(fo.Origin())
+		if callee == nil || callee.Body == nil {
+			continue
+		}
+		ei := callee.ErrResultIndex()
+		if ei < 0 {
+			continue
+		}
+		cp, okc := g.Where(call)
+		if !okc {
+			continue
+		}
+		want := "!eq(" + f.Norm(call, &cp) + "#" + strconv.Itoa(ei) + ",nil)"
+		match := false
+		for _, a := range guards {
+			if a == want {
+				match = true
+			}
+		}
+		if !match {
+			continue
+		}
+		found = true
+		cg := callee.Graph()
+		bad := ""
+		for _, rs := range cg.Returns {
+			if c.p.Enclosing(rs.Pos()) != callee {
+				continue
+			}
+			op, _ := callee.RetOperand(rs, ei)
+			rp, _ := cg.Where(rs)
+			if op == nil || cg.NilnessOf(op, rp) != -1 {
+				bad = callee.Short + " can return an error at " + c.p.Pos(rs.Pos())
+			}
+		}
+		c.r.Check(id, f, "panic on an error of "+callee.Short, "stated belief: a panic accepted as unreachable guards a call that never fails: every return of the callee yields a nil error", panicCall.Pos(), bad == "", bad)
+	}
+	return found
 }
